@@ -35,7 +35,9 @@ FlatTypes == ScalarTypes \cup LiteralTypes \cup UnionTypes \cup WrapTypes
 
 ElemTypes == {Sc(k) : k \in ElemKinds} \cup {Opt(Sc("int")), Lit(<<"i0", "i1">>), Un(<<Sc("int"), Sc("str")>>)}
 KeyTypes == {Sc("str"), Sc("int"), Lit(<<"s_a", "i1">>)} \cup {Sc(k) : k \in ElemKinds \cap {"Decimal", "date", "bool", "float"}}
+\* every documented iterable constructor is explored in every profile: those outside IterTypeKinds with two element types
 Iter1Types == {Ty(k, <<e>>, <<>>) : k \in IterTypeKinds, e \in ElemTypes}
+              \cup {Ty(k, <<e>>, <<>>) : k \in IterKinds \ IterTypeKinds, e \in {Sc("int"), Opt(Sc("str"))}}
 Dict1Types == {Ty(k, <<kt, vt>>, <<>>) : k \in DictKinds, kt \in KeyTypes, vt \in ElemTypes}
 Tuple1Types == {Ty("tuple_fix", <<e>>, <<>>) : e \in ElemTypes} \cup
                {Ty("tuple_fix", <<e, f>>, <<>>) : e \in {Sc("int"), Sc("str"), Opt(Sc("int"))}, f \in ElemTypes}
